@@ -157,6 +157,8 @@ def work(ctx, case):
 
 
 def _eval_only(ctx, case):
+    if "hostile" in case:
+        return hostile_viols(hostile(ctx, case["hostile"]))
     return eval_case(ctx, case)[0]
 
 
@@ -204,7 +206,71 @@ def free_running(ctx, mode):
     return out
 
 
+HOSTILE = {
+    "long digit run + local part": "v1.0." + "20260927063015" * 2 + "+build",
+    "long digit run + junk": "v" + "7" * 30 + "!x",
+    "many dotted segments + junk": "v" + "1." * 40 + "x",
+    "many pre-release markers": "v1" + "rc1" * 30 + "#",
+    "huge number": "v" + "9" * 4000,
+    "very many segments": "1" + ".1" * 5000,
+    "long garbage": "a-" * 50000,
+    "blanks": " " * 20000 + "v1" + " " * 20000,
+}
+HOSTILE_SRC = r"""
+import sys, json, time, importlib
+spec = json.loads(sys.stdin.read())
+import requests
+class R:
+    status_code = 200
+    def raise_for_status(self): pass
+    def json(self): return {"tag_name": spec["tag"]}
+requests.get = lambda *a, **k: R()
+from click.testing import CliRunner
+import ascmhl.commands as C
+t0 = time.time(); b = CliRunner(mix_stderr=False).invoke(C.info, [spec["root"]]); tb = time.time() - t0
+t0 = time.time()
+mod = importlib.import_module("ascmhl.cli.ascmhl")
+r = CliRunner(mix_stderr=False).invoke(mod.mhltool_cli, ["info", spec["root"]]); dt = time.time() - t0
+print("@@" + json.dumps([round(dt - tb, 3), r.exit_code, b.exit_code, r.stdout.startswith(b.stdout)]))
+"""
+
+
+def hostile(ctx, name):
+    """free-running, fresh interpreter: a quick, well-formed answer whose version string is hostile to a parser (a thread
+    that computes without releasing the interpreter lock stalls the command although it is 'in the background')"""
+    import subprocess
+    import sys
+    ok, bad, sealed = prepare(ctx)
+    best = None
+    for attempt in range(2):
+        try:
+            p = subprocess.run([sys.executable, "-c", HOSTILE_SRC], input=json.dumps({"tag": HOSTILE[name], "root": ok}),
+                               capture_output=True, text=True, timeout=40, env=dict(os.environ, PYTHONHASHSEED="0"))
+        except subprocess.TimeoutExpired:
+            return (name, 40.0, None, None, False)
+        line = [l for l in p.stdout.splitlines() if l.startswith("@@")]
+        if not line:
+            raise engine.HarnessError(f"hostile-tag pass produced no result: {p.stderr[-500:]}")
+        dt, ex, bex, same = json.loads(line[0][2:])
+        if best is None or dt < best[1]:
+            best = (name, dt, ex, bex, same)
+        if dt < 1.5:
+            break
+    return best
+
+
+def hostile_viols(res):
+    name, overhead, ex, bex, same = res
+    if overhead < 2.5 and ex == bex and same:
+        return []
+    return [Viol(PROP, "free-running-stall", {"mode": "hostile-version-string"},
+                 f"real threads, quick answer with tag_name = {name} ({HOSTILE[name][:60]!r}...): overhead {overhead} s, "
+                 f"exit {ex} (command itself {bex}), stdout prefix ok {same}", {"hostile": name})]
+
+
 def work_free(ctx, mode):
+    if mode in HOSTILE:
+        return [("hostile", hostile(ctx, mode))]
     return free_running(ctx, mode)
 
 
@@ -253,8 +319,13 @@ def main(tier, seed):
                      else f"stateless, <= {case['bound']} preemptions"})
     for rr in runs[:: max(1, len(runs) // 5)]:
         eng.sample(rr)
-    free = eng.pmap(work_free, ["hang", "slow"], chunksize=1)
-    for lst in free:
+    free = eng.pmap(work_free, ["hang", "slow"] + list(HOSTILE), chunksize=1)
+    for lst in [x for x in free if x and x[0][0] == "hostile"]:
+        hv = hostile_viols(lst[0][1])
+        eng.outcome(("free-running", "hostile version string", "viol" if hv else "ok"))
+        eng.add_viols(hv)
+    free = [x for x in free if not (x and x[0][0] == "hostile")] + [[list(x[0][1])] for x in free if x and x[0][0] == "hostile"]
+    for lst in free[:2]:
         for group, mode, overhead, ex, bex, same in lst:
             eng.outcome(("free-running", mode, "ok" if overhead < 2.5 and ex == bex and same else "viol"))
             if overhead >= 2.5 or ex != bex or not same:
@@ -270,7 +341,8 @@ def main(tier, seed):
                    "16 server answers + a server that never answers (arrival of the answer is a scheduler choice, the join timeout a "
                    "virtual-clock event) and 4-5 commands (succeeding and failing, both groups); oracle: exit code and stdout of the "
                    "plain command (+ at most one trailing notice line), <= 1 s virtual blocking, no deadlock; separate free-running "
-                   "pass with real threads and real time for a hanging and a slow server"}
+                   "pass with real threads and real time for a hanging and a slow server and for quick answers whose version string is "
+                   "hostile to a parser (long digit runs, thousands of segments, huge numbers, long garbage)"}
     eng.assumptions.append("preemption inside a single source line or a C call is not interleaved (the shared state is two attribute stores)")
     return eng.finish(cov, _eval_only)
 
